@@ -1,1 +1,2 @@
 import Dalek.Props.C04.Recode
+import Dalek.Props.C04.Algorithms
